@@ -3,9 +3,10 @@
 prove:      coq/Properties/C15.v (theorems about the Gallina model
             theories/L6Past/PastModel.v of omega/logic/past.py as repaired by
             fixes/F5_F10.patch).
-correspond: tie H.  Generated formulas are printed, translated by the REAL
-            past.translate, the returned strings are parsed by the REAL parser
-            (omega.logic.lexyacc); then
+correspond: tie H.  Generated formulas (Boolean variables, constants,
+            arithmetic comparisons as opaque atoms) are printed, translated by
+            the REAL past.translate, the returned strings are parsed by the
+            REAL parser (omega.logic.lexyacc); then
             (a) in Python the testers are solved along every sequence of
                 valuations up to the length bound (exactly one solution?) and
                 the translated formula is compared with the direct anchored
@@ -16,15 +17,25 @@ correspond: tie H.  Generated formulas are printed, translated by the REAL
                 implementation's parsed initial condition and transition
                 relation on every sequence of the maximal length, and the
                 implementation's translated formula, the model's and the
-                semantics are compared at every position;
+                semantics are compared at every position
+                (PastFast.check_all_fast, proved equal to the plain
+                PastCheck.check_all and exhaustive);
             (c) solutions computed in Python on sampled sequences are compared
                 bit by bit with the model's inside Coq;
             (d) for formulas with future operators (prophecy testers when
                 until=True, pass-through when until=False) the two
                 translations are compared as truth tables over current/next
-                values, plus in Python on lasso-shaped infinite sequences.
-search:     the oracle of (a) on the differing case, the corpus, the
-            systematic small formulas and fresh random formulas; shrinks.
+                values; with until=True the real testers are also solved in
+                Python on all ultimately periodic sequences u v^omega up to a
+                length bound (exactly one FAIR solution?  translated formula
+                equivalent to the LTL semantics at every position?).
+            A difference that disappears under a renaming of the auxiliary
+            variables (a refactoring that numbers `_aux` differently) is
+            accepted and recorded as a note.
+search:     the oracles of (a)/(d) on the differing cases, the corpus, the
+            systematic small formulas and fresh random formulas; shrinks to a
+            smallest failing subformula and shortest sequence; one replay per
+            class (F5, F10, other).
 """
 import json
 import multiprocessing
@@ -576,7 +587,13 @@ def prove(ctx):
         'tie H (hand-written model theories/L6Past/PastModel.v of '
         'omega/logic/past.py after fixes/F5_F10.patch); strings built by the '
         'code are modelled by the trees the real parser gives for them; PLY '
-        'and astutils are outside the model')
+        'and astutils are outside the model; translate(debug=True) (sorted '
+        'conjuncts) and map_translate are not modelled; arithmetic '
+        'comparisons are opaque atoms')
+    ctx.trusted.append(
+        'tools/vlib/past_eval.py (exhaustive solver of the real testers and '
+        'direct past/future LTL semantics on finite and ultimately periodic '
+        'sequences): search/property oracle, not evidence of correctness')
 
 
 # ----------------------------------------------------------------- search
